@@ -14,6 +14,96 @@ EXPLANATION = ("Liveness over all schedules is not statically decidable; these a
 RULE = "rule instances = (rule, site) pairs over MIR call sites / branches / constant tables; non-trivial = bound to a real site"
 
 
+# --------------------------------------------------------------------------
+# local helpers (structure only: descriptors, branch edges, reachability)
+# --------------------------------------------------------------------------
+
+_ITER_VIEWS = ('iter', 'into_iter', 'iter_mut', 'cloned', 'copied', 'by_ref')
+
+
+def _escapes(body, starts, avoid=(), avoid_edges=()):
+    """some path from `starts` reaches a normal return without entering an `avoid` block or using an `avoid_edges` edge"""
+    r = body.reachable_from(list(starts), set(avoid), set(avoid_edges))
+    return any(x in r for x in body.return_blocks())
+
+
+def _peel_iter(d):
+    """strip calls that only turn a collection into an iterator over ALL of its elements (`.iter()`, `.into_iter()`,
+    `.cloned()`, `.copied()`); range-changing adaptors (skip/take/filter/rev().take/step_by/slicing) are NOT stripped"""
+    while isinstance(d, tuple) and d and d[0] == 'call' and len(d[3]) == 1 and d[1].rsplit('::', 1)[-1] in _ITER_VIEWS:
+        d = d[3][0]
+    return d
+
+
+def _is_named_const(d, name):
+    return isinstance(d, tuple) and d[0] == 'const' and bool(d[3]) and (d[3] == name or d[3].endswith('::' + name))
+
+
+def _variant_of(d, adt_last):
+    """'V' when d is the fieldless aggregate `<..>::adt_last::V`, else None"""
+    if isinstance(d, tuple) and d[0] == 'agg' and d[1] == 'adt':
+        parts = d[2].split('::')
+        if len(parts) >= 2 and parts[-2] == adt_last:
+            return parts[-1]
+    return None
+
+
+def _is_full_array(d, adt_last, variants):
+    """d is an array literal listing every variant of the enum exactly once"""
+    if not (isinstance(d, tuple) and d[0] == 'agg' and d[1] == 'array'):
+        return False
+    vs = [_variant_of(x, adt_last) for x in d[3]]
+    return None not in vs and sorted(vs) == sorted(variants)
+
+
+def _next_calls(d):
+    """`Iterator::next(recv)` nodes inside a descriptor"""
+    return [x for x in walk(d) if x[0] == 'call' and len(x[3]) == 1 and x[1].rsplit('::', 1)[-1] == 'next']
+
+
+def _bool_edges_of(br):
+    """(inner descriptor, target when inner is true, target when inner is false) of a bool branch"""
+    inner, neg = peel_not(br.desc)
+    return inner, br.target(0 if neg else 1), br.target(1 if neg else 0)
+
+
+def _max_data_set_blocks(ctx, body):
+    """blocks of `body` that store `true` (or `|= true`) to Retransmits.max_data; for stores that index
+    Connection.spaces the indexed space must be SpaceId::Data"""
+    F = ctx.facts
+    d = describer(F, body)
+    out = set()
+    for w, v in store_values(ctx, 'Retransmits', 'max_data', in_fn=body):
+        if w.body.id != body.id:
+            continue
+        true_ = (v == ('const', 'int', '1', '')) or (v[0] == 'bin' and v[1] == 'BitOr' and ('const', 'int', '1', '') in (v[2], v[3]))
+        if not true_:
+            continue
+        base = d.place([w.place[0], []], w.bb, w.idx)
+        if D.has_field(base, 'spaces') and not any(_variant_of(x, 'SpaceId') == 'Data' for x in walk(base)):
+            continue
+        out.add(w.bb)
+    return out
+
+
+def _decision_queues_max_data(ctx, body, site):
+    """the bool decision derived from call `site` (directly, or through ShouldTransmit::should_transmit) is branched on and
+    every path from its TRUE edge to a return stores pending.max_data = true.  returns (found a branch, ok)"""
+    F = ctx.facts
+    md = _max_data_set_blocks(ctx, body)
+    found, ok = False, True
+    for br in branches(F, body):
+        inner, t_yes, t_no = _bool_edges_of(br)
+        if inner[0] != 'call' or not contains_site(inner, site):
+            continue
+        if not (is_site(inner, site) or (D.has_call(inner, 'ShouldTransmit::should_transmit') and inner[1].endswith('should_transmit'))):
+            continue
+        found = True
+        if t_yes is None or not md or _escapes(body, [t_yes], avoid=md):
+            ok = False
+    return found, ok
+
+
 def rule_a(ctx):
     F = ctx.facts
     t = F.adt('timer::Timer')
@@ -30,8 +120,15 @@ def rule_a(ctx):
     mx = max(int(v['discr']) for v in t['variants'])
     ctx.check(bool(m) and mx < int(m.group(1)), 'a', 'timer_discriminants_index_the_table', 'Timer', '', 'max discriminant %d' % mx, 'a Timer discriminant exceeds the table size')
     ht = ctx.pfn('Connection::handle_timeout')
-    it = [c for c in ht.calls() if c.is_('IntoIterator::into_iter') and ('VALUES' in D.render(arg_desc(F, c, 0)) or len([n for n in walk(arg_desc(F, c, 0)) if n[0] == 'agg' and n[2].endswith('Timer::Idle')]) > 0)]
-    ctx.check(bool(it), 'a', 'handle_timeout_iterates_all_timers', ht, ht.where(), 'for &timer in &Timer::VALUES', 'handle_timeout no longer iterates Timer::VALUES')
+    # the loop variable comes from an iterator over exactly Timer::VALUES (or a literal array of every variant): no
+    # skip/take/filter/slice between the table and `next`, and it is that variable whose expiry is examined
+    def whole_table(d):
+        d = _peel_iter(d)
+        return _is_named_const(d, 'Timer::VALUES') or _is_full_array(d, 'Timer', variants)
+    nx = [c for c in ht.calls() if short(c.f).rsplit('::', 1)[-1] == 'next' and len(c.args) == 1 and whole_table(arg_desc(F, c, 0))]
+    ex = ht.calls_to('TimerTable::is_expired')
+    ctx.check(bool(nx) and bool(ex) and all(any(contains_site(arg_desc(F, e, 1), c) for c in nx) for e in ex), 'a', 'handle_timeout_iterates_all_timers', ht, ht.where(), 'for &timer in &Timer::VALUES { is_expired(timer) .. }',
+              'handle_timeout no longer examines every element of Timer::VALUES (the iterated range is not the whole table, or the timer tested is not the loop variable)')
     nt = ctx.pfn('TimerTable::next_timeout')
     ctx.check(any(short(c.f).endswith('::min') for x in F.family(nt) for c in x.calls()), 'a', 'next_timeout_is_minimum', nt, nt.where(), 'min over the table', 'next_timeout no longer returns the minimum deadline')
 
@@ -61,17 +158,49 @@ def rule_b(ctx):
         ctx.check(must_follow(F, ol, w.bb, SL, 0) is None, 'b', 'rearm_in_pto_arm', ol, w.where(), 'PTO arm re-arms the timer', 'after scheduling loss probes the PTO timer is not re-armed')
     ft = ctx.pfn('PacketBuilder::finish_and_track')
     cs = ft.calls_to(*SL)
-    brs = [br for br in branches(F, ft, stop_named=True) if relation_on(br.desc, True) and 'size' in D.render(br.desc) and D.has_const(br.desc, 0)]
+    # "in flight" = the value recorded as SentPacket.size at the PathData::sent call; on the edge where it is != 0 every
+    # path to the return re-arms the timer
+    sizes = []
+    for c in ft.calls_to('PathData::sent'):
+        for i in range(len(c.args)):
+            for x in walk(arg_desc(F, c, i)):
+                if x[0] == 'agg' and x[1] == 'adt' and x[2].split('::')[-1] == 'SentPacket' and len(x) > 4 and 'size' in x[4]:
+                    sizes.append(x[3][x[4].index('size')])
+    zero = ('const', 'int', '0', '')
+    one = ('const', 'int', '1', '')
+    es = guard_edges(ctx, ft, lambda o, a, b: (o == 'Ne' and ((a == zero and b in sizes) or (b == zero and a in sizes))) or (o == 'Lt' and a == zero and b in sizes) or (o == 'Le' and a == one and b in sizes))
+    slb = {c.bb for c in cs}
     n += len(cs)
-    ctx.check(bool(cs) and bool(brs), 'b', 'rearm_after_tracked_send', ft, ft.where(), 'size != 0 -> set_loss_detection_timer', 'sending an in-flight packet no longer (re)arms the loss timer')
+    ctx.check(bool(cs) and bool(sizes) and bool(es) and all(tgt is not None and not _escapes(ft, [tgt], avoid=slb) for br, truth, tgt in es), 'b', 'rearm_after_tracked_send', ft, ft.where(),
+              'size != 0 -> set_loss_detection_timer on every path', 'sending an in-flight packet (SentPacket.size != 0) no longer (re)arms the loss timer on every path')
     he = ctx.pfn('Connection::handle_event')
     cs = he.calls_to(*SL)
-    nb = [br for br in branches(F, he, stop_named=True) if peel_not(br.desc)[0][0] == 'local' and peel_not(br.desc)[0][2] == 'was_anti_amplification_blocked']
+    slb = {c.bb for c in cs}
     n += len(cs)
-    ctx.check(bool(cs) and bool(nb) and all(any(he.dominates(br.bb, c.bb) for br in nb) for c in cs), 'b', 'rearm_when_amplification_unblocks', he, he.where(), 'if was_anti_amplification_blocked { set_loss_detection_timer }',
+    # the flag: result of PathData::anti_amplification_blocked that is branched on (through any local copy)
+    flag_br = []
+    for br in branches(F, he):
+        inner, t_yes, t_no = _bool_edges_of(br)
+        if inner[0] == 'call' and (inner[1] == 'PathData::anti_amplification_blocked' or path_matches(inner[2], 'PathData::anti_amplification_blocked')):
+            flag_br.append((br, inner, t_yes, t_no))
+    # crediting sites of this datagram: the direct store to PathData.total_recvd and the packet handlers
+    credit_st = [w for w in field_writes(F, 'PathData', 'total_recvd', crate='quinn_proto') if w.body.id == he.id and w.kind in ('assign', 'callresult')]
+    credit = {w.bb for w in credit_st} | {c.bb for c in he.calls_to('Connection::handle_decode', 'Connection::handle_coalesced')}
+    ctx.floor('b', 'datagram_credit_sites', len(credit_st) + len(he.calls_to('Connection::handle_decode')), 2)
+    # after the datagram is credited, every path to the return either re-arms or leaves over the "was not blocked" edge
+    not_blocked = {(br.bb, t_no) for br, inner, t_yes, t_no in flag_br if t_no is not None and t_no != t_yes}
+    ok = bool(cs) and bool(flag_br) and bool(credit_st) and all(not _escapes(he, [w.bb], avoid=slb, avoid_edges=not_blocked) for w in credit_st)
+    ctx.check(ok, 'b', 'rearm_when_amplification_unblocks', he, he.where(), 'after crediting total_recvd: if was_anti_amplification_blocked { set_loss_detection_timer }',
               'receiving data on an amplification-blocked path no longer re-arms the loss timer (handshake deadlock if the first flight was lost)')
-    was = local_defs_desc(ctx, he, 'was_anti_amplification_blocked')
-    ctx.check(any(D.has_call(x, 'PathData::anti_amplification_blocked') for x in was), 'b', 'unblock_flag_definition', he, he.where(), 'was_.. = path.anti_amplification_blocked(1)', 'flag definition changed')
+    # the flag records the state BEFORE this datagram is credited: its sampling call dominates every crediting site and
+    # cannot be reached again after one
+    samp = {inner[4] for br, inner, t_yes, t_no in flag_br}
+    after = set()
+    for x in credit:
+        after |= he.reachable_strict(x)
+    ok = bool(samp) and bool(credit) and all(sb not in credit and sb not in after and all(he.dominates(sb, x) for x in credit) for sb in samp)
+    ctx.check(ok, 'b', 'unblock_flag_definition', he, he.where(), 'was_.. = path.anti_amplification_blocked(1), sampled before handle_decode / total_recvd is credited',
+              'the unblock flag is no longer the amplification state sampled before this datagram is credited (sampled afterwards it is false exactly when the datagram lifted the limit)')
     ht = ctx.pfn('Connection::handle_timeout')
     cs = ht.calls_to(*SL)
     n += len(cs)
@@ -84,12 +213,14 @@ def rule_c(ctx):
     ctx.ok('c', 'must_use_results_not_dropped', 'rustc -Dunused_must_use', '', 'the analysed build compiled with -Dunused_must_use (a dropped ShouldTransmit / #[must_use] value is a compile error reported as a violation)')
     st = F.adt('streams::ShouldTransmit')
     pp = ctx.pfn('Connection::process_payload')
+    nd = 0
     for callee in ('StreamsState::received', 'StreamsState::received_reset'):
         for c in pp.calls_to(callee):
-            md = [w for w in field_writes(F, 'Retransmits', 'max_data', crate='quinn_proto') if w.body.id == pp.id and w.kind == 'assign']
-            brs = [br for br in branches(F, pp) if D.has_call(br.desc, 'ShouldTransmit::should_transmit') and contains_site(br.desc, c)]
-            ok = bool(brs) and any(any(w.bb in pp.reachable_from(br.target(1), avoid=[br.bb]) and w.bb not in pp.reachable_from(br.target(0), avoid=[br.bb] + [w2.bb for w2 in md if w2 is not w]) for w in md) for br in brs)
-            ctx.check(bool(brs) and bool(md), 'c', 'credit_decision_queues_max_data', pp, c.where(), 'if %s(..)?.should_transmit() { pending.max_data = true }' % short(c.f), 'the ShouldTransmit decision of %s no longer queues MAX_DATA' % short(c.f))
+            nd += 1
+            found, ok = _decision_queues_max_data(ctx, pp, c)
+            ctx.check(found and ok, 'c', 'credit_decision_queues_max_data', pp, c.where(), 'if %s(..)?.should_transmit() { spaces[Data].pending.max_data = true }' % short(c.f),
+                      'the ShouldTransmit decision of %s no longer queues MAX_DATA: %s' % (short(c.f), 'a path from its should_transmit()==true edge reaches the return without storing pending.max_data = true in the Data space' if found else 'its should_transmit() is not branched on'))
+    ctx.floor('c', 'credit_decision_sites', nd, 2)
     rs = ctx.pfn('RecvStream::stop')
     md = [w for w in field_writes(F, 'Retransmits', 'max_data', crate='quinn_proto') if w.body.id == rs.id and w.kind == 'assign']
     ctx.check(bool(md) and bool(rs.calls_to('ShouldTransmit::should_transmit')), 'c', 'stop_queues_max_data', rs, rs.where(), 'add_read_credits(..).should_transmit() -> pending.max_data', 'RecvStream::stop no longer queues MAX_DATA for discarded bytes')
@@ -98,11 +229,22 @@ def rule_c(ctx):
     ms = [c for c in fi.calls() if short(c.f).endswith('::insert') and D.has_field(arg_desc(F, c, 0), 'max_stream_data')]
     ctx.check(bool(md) and bool(ms), 'c', 'finalize_queues_credit', fi, fi.where(), 'pending.max_data |= ..; pending.max_stream_data.insert(id)', 'finishing a read no longer queues MAX_DATA / MAX_STREAM_DATA')
     srw = ctx.pfn('Connection::set_receive_window')
-    md = [w for w in field_writes(F, 'Retransmits', 'max_data', crate='quinn_proto') if w.body.id == srw.id]
-    ctx.check(bool(md), 'c', 'window_growth_queues_max_data', srw, srw.where(), 'expanded -> pending.max_data = true', 'growing the receive window no longer announces it')
+    grown = srw.calls_to('StreamsState::set_receive_window')
+    res = [_decision_queues_max_data(ctx, srw, c) for c in grown]
+    ctx.check(bool(res) and all(f and o for f, o in res), 'c', 'window_growth_queues_max_data', srw, srw.where(), 'streams.set_receive_window(..) == true (expanded) -> spaces[Data].pending.max_data = true',
+              'growing the receive window no longer announces it (the store of pending.max_data is not on the expanded==true edge)')
     # the pending flags are consumed only by write_control_frames
     wcf = ctx.pfn('StreamsState::write_control_frames')
-    ctx.check(bool([br for br in branches(F, wcf) if D.has_field(br.desc, 'max_data')]), 'c', 'pending_max_data_consumed', wcf, wcf.where(), 'write_control_frames tests pending.max_data', 'MAX_DATA is never written')
+    # the MAX_DATA frame type is written on the TRUE edge of a test of the pending flag (more conditions, e.g. space left,
+    # may follow on that edge)
+    wr = [c for c in wcf.calls() if short(c.f).rsplit('::', 1)[-1] == 'write' and any(_is_named_const(x, 'FrameType::MAX_DATA') for i in range(len(c.args)) for x in walk(arg_desc(F, c, i)))]
+    tests = []
+    for br in branches(F, wcf):
+        inner, t_yes, t_no = _bool_edges_of(br)
+        if inner[0] == 'field' and inner[2] == 'max_data' and inner[1][0] == 'param':
+            tests.append((br, t_yes, t_no))
+    ok = bool(wr) and bool(tests) and all(any(t_yes is not None and wcf.dominates(br.bb, w.bb) and w.bb in wcf.reachable_from(t_yes, avoid=[br.bb]) for br, t_yes, t_no in tests) for w in wr)
+    ctx.check(ok, 'c', 'pending_max_data_consumed', wcf, wcf.where(), 'if pending.max_data [&& room] { write(FrameType::MAX_DATA) }', 'a pending MAX_DATA is never written: no write of FrameType::MAX_DATA lies on the true edge of a test of pending.max_data')
 
 
 def rule_d(ctx):
@@ -111,11 +253,18 @@ def rule_d(ctx):
                  why='stream-count credit must be re-evaluated wherever a remote stream can become free')
     F = ctx.facts
     pp = ctx.pfn('Connection::process_payload')
-    # at the end of process_payload: reachable on every Ok path after the frame loop: dominated-by relation with the final Ok
+    # MUST-FOLLOW from the exit of the frame loop (the None edge of `frame::Iter::next`) and from the packet_received
+    # bookkeeping after it: every path to the return passes queue_max_stream_id
     q = pp.calls_to('StreamsState::queue_max_stream_id')
-    mg = pp.calls_to('Connection::migrate')
-    ok = bool(q) and all(any(pp.dominates(x.bb, m.bb) for x in q) for m in mg)
-    ctx.check(ok, 'd', 'credit_requeued_after_frame_processing', pp, pp.where(), 'queue_max_stream_id after the frame loop', 'process_payload no longer re-evaluates stream-count credit after processing frames')
+    qb = {x.bb for x in q}
+    exits = []
+    for br in branches(F, pp):
+        if br.desc[0] == 'discr' and br.desc[1][0] == 'call' and br.desc[1][1].rsplit('::', 1)[-1] == 'next' and path_matches(br.desc[1][2], 'frame::Iter'):
+            if br.target(0) is not None:
+                exits.append(br.target(0))
+    exits += [c.bb for c in pp.calls_to('PendingAcks::packet_received')]
+    ok = bool(q) and bool(exits) and not _escapes(pp, exits, avoid=qb)
+    ctx.check(ok, 'd', 'credit_requeued_after_frame_processing', pp, pp.where(), 'queue_max_stream_id on every path after the frame loop', 'process_payload no longer re-evaluates stream-count credit on every path after processing frames')
 
 
 def rule_e(ctx):
@@ -176,19 +325,60 @@ def rule_g(ctx):
     pt = ctx.pfn('Connection::poll_transmit')
     mq = pt.calls_to('PacketSpace::maybe_queue_probe')
     pb = pt.calls_to('PacketBuilder::new')
-    it = [c for c in pt.calls_to('SpaceId::iter')]
-    ok = bool(mq) and bool(it) and all(any(pt.dominates(i.bb, m.bb) for i in it) for m in mq)
+    # the space handed to maybe_queue_probe ranges over EVERY SpaceId: the loop variable of an iterator over exactly
+    # SpaceId::iter() / a literal array of all variants (no skip/take/filter in between), or explicit calls per variant
+    sv = [v['name'] for v in F.adt('packet::SpaceId')['variants']]
+    covered = set()
+    for m_ in mq:
+        recv = arg_desc(F, m_, 0)
+        nxs = _next_calls(recv)
+        if nxs:
+            for x in nxs:
+                src = _peel_iter(x[3][0])
+                if (src[0] == 'call' and not src[3] and (src[1] == 'SpaceId::iter' or path_matches(src[2], 'SpaceId::iter'))) or _is_full_array(src, 'SpaceId', sv):
+                    covered |= set(sv)
+                elif src[0] == 'agg' and src[1] == 'array':
+                    covered |= {_variant_of(e, 'SpaceId') for e in src[3]} - {None}
+        else:
+            covered |= {_variant_of(x, 'SpaceId') for x in walk(recv)} - {None}
+    ok = bool(mq) and covered == set(sv)
     # the probe-queueing loop completes before the first packet is built: no builder reachable before it
     ok = ok and all(not pt.dominates(b.bb, m.bb) for b in pb for m in mq)
-    ctx.check(ok, 'g', 'probes_queued_for_every_space_first', pt, pt.where(), 'for space in SpaceId::iter() { maybe_queue_probe }', 'loss probes are no longer prepared for every space before the send loop')
+    ctx.check(ok, 'g', 'probes_queued_for_every_space_first', pt, pt.where(), 'for space in SpaceId::iter() { maybe_queue_probe }', 'loss probes are no longer prepared for every space before the send loop (spaces covered: %s)' % sorted(covered))
     m = ctx.pfn('PacketSpace::maybe_queue_probe')
     # every path that passes the loss_probes != 0 test ends with something ack-eliciting queued: pending non-empty (early return), retransmits moved, or ping/immediate_ack pending
-    z = [br for br in branches(F, m) if D.has_field(br.desc, 'loss_probes')]
+    def lp(x):
+        return x[0] == 'field' and x[2] == 'loss_probes' and x[1][0] == 'param'
+    zero, one = ('const', 'int', '0', ''), ('const', 'int', '1', '')
+    # edges on which loss_probes != 0 holds: `!= 0`, `0 <`, `1 <=` (and their negated spellings, normalised by relation_on)
+    z = guard_edges(ctx, m, lambda o, a, b: (o == 'Ne' and ((a == zero and lp(b)) or (b == zero and lp(a)))) or (o == 'Lt' and a == zero and lp(b)) or (o == 'Le' and a == one and lp(b)))
     pp_ = [w for w in field_writes(F, 'PacketSpace', 'ping_pending', crate='quinn_proto') if w.body.id == m.id]
+    ping = {w.bb for w, v in store_values(ctx, 'PacketSpace', 'ping_pending', in_fn=m) if w.body.id == m.id and v == ('const', 'int', '1', '')}
     ia = [br for br in branches(F, m) if D.has_field(br.desc, 'immediate_ack_pending')]
     bo = [c for c in m.calls() if c.is_('BitOrAssign::bitor_assign')]
     ie = [br for br in branches(F, m) if D.has_call(br.desc, 'Retransmits::is_empty')]
-    ctx.check(bool(z) and bool(pp_) and bool(ia) and bool(bo) and bool(ie), 'g', 'probe_always_has_content', m, m.where(), 'pending data | moved retransmits | ping_pending (unless immediate_ack_pending)', 'maybe_queue_probe can leave a loss probe with nothing ack-eliciting to send')
+    content_edges = set()      # edges on which something ack-eliciting is known to be queued
+    for br in branches(F, m):
+        inner, t_yes, t_no = _bool_edges_of(br)
+        if t_yes == t_no:
+            continue
+        if inner[0] == 'call' and inner[1].endswith('Retransmits::is_empty') and inner[3] and inner[3][0][0] == 'field' and inner[3][0][2] == 'pending' and inner[3][0][1][0] == 'param':
+            content_edges.add((br.bb, t_no))                     # self.pending is NOT empty
+        if inner[0] == 'field' and inner[2] == 'immediate_ack_pending' and inner[1][0] == 'param':
+            content_edges.add((br.bb, t_yes))                    # an IMMEDIATE_ACK is already pending
+    moved = set()              # `self.pending |= take(x.retransmits)` reached only over the "x.retransmits is NOT empty" edge
+    for c in bo:
+        a0 = arg_desc(F, c, 0)
+        if not (a0[0] == 'field' and a0[2] == 'pending' and a0[1][0] == 'param'):
+            continue
+        srcs = [x[3][0] for x in walk(arg_desc(F, c, 1)) if x[0] == 'call' and x[1].rsplit('::', 1)[-1] in ('take', 'replace') and x[3]]
+        for br in branches(F, m):
+            inner, t_yes, t_no = _bool_edges_of(br)
+            if inner[0] == 'call' and inner[1].endswith('Retransmits::is_empty') and inner[3] and inner[3][0] in srcs and t_no is not None and t_yes != t_no:
+                if m.dominates(br.bb, c.bb) and c.bb in m.reachable_from(t_no, avoid=[br.bb]) and c.bb not in m.reachable_from(t_yes, avoid=[br.bb]):
+                    moved.add(c.bb)
+    ok = bool(z) and bool(ping) and bool(ia) and bool(moved) and bool(ie) and all(tgt is not None and not _escapes(m, [tgt], avoid=ping | moved, avoid_edges=content_edges) for br, truth, tgt in z)
+    ctx.check(ok, 'g', 'probe_always_has_content', m, m.where(), 'pending data | moved retransmits | ping_pending (unless immediate_ack_pending)', 'maybe_queue_probe can leave a loss probe with nothing ack-eliciting to send')
     for w in pp_:
         # ping is the fall-through: reachable only when nothing else was found
         ctx.check(any(m.dominates(br.bb, w.bb) for br in ie), 'g', 'ping_only_as_fallback', m, w.where(), 'ping_pending after the pending/retransmit checks', 'ping fallback order changed')
